@@ -250,6 +250,11 @@ class AxesEval:
                 rank = len(self.ev(v.right.func.value))
                 out.extend([ast.Constant(value=1)] * rank)
                 continue
+            if isinstance(v, ast.BinOp) and isinstance(v.op, ast.Mult) and isinstance(v.left, ast.List) and len(v.left.elts) == 1 and dump(v.left.elts[0]) == "1" \
+                    and isinstance(v.right, ast.Call) and attr_chain(v.right.func) == "len" and len(v.right.args) == 1 and isinstance(v.right.args[0], ast.Attribute) and v.right.args[0].attr == "shape":
+                rank = len(self.ev(v.right.args[0].value))  # canonical form of X.dim()
+                out.extend([ast.Constant(value=1)] * rank)
+                continue
             raise NotAxes(f"starred size {dump(v)[:50]}")
         return out
 
